@@ -340,7 +340,7 @@ func makeMaterialPart(app *server.AppEncryption, own string) *material {
 
 func TestC19(t *testing.T) {
 	r := ev.Start("C19", "exploration")
-	r.Rule("(1) every request sequence up to length L over {get-session valid / empty id, encrypt, decrypt genuine / foreign-partition / bit-flipped / structurally empty record (4 shapes), empty request}, each followed by end-of-stream, is played through AppEncryption.Session (built by NewAppEncryption from an Options value: memory metastore + static KMS, once without and once with the shared session cache of 2 sessions) on an in-process stream; a reference protocol automaton {uninitialised, initialised, rejected-get-session} gives the expected response class per request, responses are counted per request, panics are recovered per sequence. (2) seeded sequences of length 40 on 8 concurrent streams per round, spread over three partitions (so that cached sessions are shared between streams and evicted while in use), over real gRPC (bufconn) under the race detector, for both server variants, same automaton per stream. (3) 8 lock-step streams per round against a server whose SDK caches nothing while the metastore alternates between healthy and failing with a different error text every time: each request gets exactly one response (the right answer or an error response). Distinct+non-trivial: distinct sequences that reached an initialised session.")
+	r.Rule("(1) every request sequence up to length L over {get-session valid / empty id, encrypt, decrypt genuine / foreign-partition / bit-flipped / structurally empty record (4 shapes), empty request}, each followed by end-of-stream, is played through AppEncryption.Session (built by NewAppEncryption from an Options value: memory metastore + static KMS, once without and once with the shared session cache of 2 sessions) on an in-process stream; a reference protocol automaton {uninitialised, initialised, rejected-get-session} gives the expected response class per request, responses are counted per request, panics are recovered per sequence. (2) seeded sequences of length 40 on 8 concurrent streams per round, spread over three partitions (so that cached sessions are shared between streams and evicted while in use), over real gRPC (bufconn) under the race detector, for both server variants, same automaton per stream. (3) 8 lock-step streams per round against a server whose SDK caches nothing while the metastore alternates between healthy and failing (all reads / only system-key reads / only intermediate-key reads, per round) with a different error text every time: each request gets exactly one response (the right answer or an error response). Distinct+non-trivial: distinct sequences that reached an initialised session.")
 	r.Assume("the server binary's main() is not exercised, only pkg/server; a handler panic under a real grpc.Server kills the process (detected by the check script as a crash)")
 	n := 0
 	Ls := []int{ev.Pick(4, 5), ev.Pick(3, 4)}
@@ -476,7 +476,12 @@ func concurrentStreams(t *testing.T, r *ev.Run, sess bool) {
 type flakyStore struct {
 	appencryption.Metastore
 	failing atomic.Bool
+	only    string // when non-empty only reads of ids with this prefix fail ("_SK_", "_IK_")
 	n       atomic.Int64
+}
+
+func (f *flakyStore) fails(id string) bool {
+	return f.failing.Load() && strings.HasPrefix(id, f.only)
 }
 
 func (f *flakyStore) errNow() error {
@@ -485,14 +490,14 @@ func (f *flakyStore) errNow() error {
 }
 
 func (f *flakyStore) Load(ctx context.Context, id string, created int64) (*appencryption.EnvelopeKeyRecord, error) {
-	if f.failing.Load() {
+	if f.fails(id) {
 		return nil, f.errNow()
 	}
 	return f.Metastore.Load(ctx, id, created)
 }
 
 func (f *flakyStore) LoadLatest(ctx context.Context, id string) (*appencryption.EnvelopeKeyRecord, error) {
-	if f.failing.Load() {
+	if f.fails(id) {
 		return nil, f.errNow()
 	}
 	return f.Metastore.LoadLatest(ctx, id)
@@ -517,7 +522,7 @@ func faultyBackendRound(t *testing.T, r *ev.Run, round int) {
 		t.Fatal(err)
 	}
 	defer static.Close()
-	ms := &flakyStore{Metastore: persistence.NewMemoryMetastore()}
+	ms := &flakyStore{Metastore: persistence.NewMemoryMetastore(), only: []string{"", "_SK_", "_IK_"}[round%3]}
 	pol := appencryption.NewCryptoPolicy(appencryption.WithNoCache(), appencryption.WithExpireAfterDuration(24*time.Hour), appencryption.WithRevokeCheckInterval(time.Hour))
 	sf := appencryption.NewSessionFactory(&appencryption.Config{Service: "svc", Product: "prod", Policy: pol}, ms, static, crypto)
 	defer sf.Close()
